@@ -29,9 +29,10 @@ def run(path):
 
 
 def main():
-    paths = sorted(glob.glob(os.path.join(VERIF, "hunts", "C*", "defect*.py")),
+    hunt_dir = sys.argv[1] if len(sys.argv) > 1 else "hunts"   # "hunts" (round 1) or "hunts2" (round 2)
+    paths = sorted(glob.glob(os.path.join(VERIF, hunt_dir, "C*", "defect*.py")),
                    key=lambda p: (p.split(os.sep)[-2], int(re.findall(r"\d+", os.path.basename(p))[0])))
-    with ThreadPoolExecutor(max_workers=12) as ex:
+    with ThreadPoolExecutor(max_workers=4) as ex:
         rcs = list(ex.map(run, paths))
     lines = ["# Independent defect hunt: status of every reported script on the current /repo tree", "",
              "rc 1 = still reproduces, rc 0 = no longer reproduces (repaired, see known-findings.txt `fixed:` lines).", "",
@@ -45,7 +46,7 @@ def main():
     lines += ["", "| Prop | no longer reproduces | still reproduces |", "|---|---|---|"]
     for prop, (ok, bad) in sorted(summary.items()):
         lines.append(f"| {prop} | {ok} | {bad} |")
-    open(os.path.join(VERIF, "hunts", "STATUS.md"), "w").write("\n".join(lines) + "\n")
+    open(os.path.join(VERIF, hunt_dir, "STATUS.md"), "w").write("\n".join(lines) + "\n")
     print("\n".join(lines[-(len(summary) + 2):]))
 
 
